@@ -2,6 +2,8 @@ import GoLucene.Model.Sem
 /-
   C06's executable specification: an INDEPENDENT, tree-directed derivation checker.
 
+  (A field position may itself be parenthesised — the documented grammar is `E:E`, `(E)` — so `(b):x` is a derivation.)
+
   `derives env df toks e` decides whether the expression `e` can be laid over the token sequence `toks` as a
   derivation in the documented grammar (term, field:E, field=E, field:>v …, field:[a TO b], (E), +E, -E, NOT E, E~n,
   E^n, E AND E, E OR E, juxtaposition of two terms): every term token exactly one leaf, in order and with its typed
@@ -55,6 +57,18 @@ def fieldMatches (n : Node) (t : Tok) : Bool :=
    | .expr (.mk (.prim p) .literal .nil _ _), .mk (.prim q) .literal .nil _ _ =>
      (match q with | .str _ => false | _ => p == q)
    | _, _ => false)
+
+/-- the tokens of a field position: one term token, possibly inside parentheses (the documented grammar is `E:E`, `(E)`) -/
+def fieldDerives : Nat → Node → List Tok → Bool
+  | 0, _, _ => false
+  | fuel+1, n, toks =>
+    match toks with
+    | [t] => fieldMatches n t
+    | _ => (match stripParens toks with
+            | some inner => fieldDerives fuel n inner
+            | none => false)
+
+def isColonOrEq (t : Tok) : Bool := isTyp t .colon || isTyp t .equal
 
 /-- does the token list denote the integer `n` the way the `fuzzy` reducer reads it (a number term, possibly
     parenthesised or signed)?  `flt`: likewise the positive float of `boost` -/
@@ -119,19 +133,16 @@ def derives (df : Bytes) : Nat → Expr → List Tok → Bool
             | .expr (.mk (.prim (.col c)) .literal .nil _ _), .expr (.mk (.prim q) .literal .nil pp dd) =>
               c == df && derives df fuel (.mk (.prim q) .literal .nil pp dd) toks
             | _, _ => false)) ||
-         (match toks with
-          | f :: x :: rest => (isTyp x .colon || isTyp x .equal) && fieldMatches l f && derivesNode df fuel r rest
-          | _ => false)
+         (splitsAt toks).any (fun (a, x, rest) => isColonOrEq x && fieldDerives fuel l a && derivesNode df fuel r rest)
        | .like =>
-         (match toks with
-          | f :: x :: rest =>
-            (isTyp x .colon || isTyp x .equal) && fieldMatches l f &&
-              (match r with | .expr re => (re.op = .wild || re.op = .regexp) && derives df fuel re rest | _ => false)
-          | _ => false)
+         (splitsAt toks).any (fun (a, x, rest) =>
+            isColonOrEq x && fieldDerives fuel l a &&
+              (match r with | .expr re => (re.op = .wild || re.op = .regexp) && derives df fuel re rest | _ => false))
        | .greater | .less | .greaterEq | .lessEq =>
-         (match toks with
-          | f :: c :: x :: rest =>
-            isTyp c .colon && fieldMatches l f &&
+         (splitsAt toks).any (fun (a, c, rest0) =>
+            isTyp c .colon && fieldDerives fuel l a &&
+            (match rest0 with
+             | x :: rest =>
               (match o with
                | .greater => isTyp x .greater && derivesNode df fuel r rest
                | .less => isTyp x .less && derivesNode df fuel r rest
@@ -139,24 +150,30 @@ def derives (df : Bytes) : Nat → Expr → List Tok → Bool
                  isTyp x .greater && (match rest with | y :: rest' => isTyp y .equal && derivesNode df fuel r rest' | [] => false)
                | _ =>
                  isTyp x .less && (match rest with | y :: rest' => isTyp y .equal && derivesNode df fuel r rest' | [] => false))
-          | _ => false)
+             | [] => false))
        | .in_ =>
-         (match toks, r with
-          | f :: x :: rest, .expr (.mk (.list es) .list .nil _ _) =>
-            (isTyp x .colon || isTyp x .equal) && fieldMatches l f && es.length ≥ 2 && derivesList df fuel es.toList rest
-          | _, _ => false)
+         (match r with
+          | .expr (.mk (.list es) .list .nil _ _) =>
+            (splitsAt toks).any (fun (a, x, rest) =>
+              isColonOrEq x && fieldDerives fuel l a && es.length ≥ 2 && derivesList df fuel es.toList rest)
+          | _ => false)
        | .range =>
-         (match toks, r with
-          | f :: c :: lb :: rest, .bound mn mx incl =>
-            isTyp c .colon && fieldMatches l f && (isTyp lb .lsquare || isTyp lb .lcurly) &&
-            (match rest.getLast? with
-             | some rb =>
-               (isTyp rb .rsquare || isTyp rb .rcurly) &&
-               incl == (isTyp lb .lsquare && isTyp rb .rsquare) &&
-               (splitsAt rest.dropLast).any (fun (a, x, cc) =>
-                 isTyp x .tto && derivesNode df fuel mn a && derivesNode df fuel mx cc)
-             | none => false)
-          | _, _ => false)
+         (match r with
+          | .bound mn mx incl =>
+            (splitsAt toks).any (fun (a, c, rest0) =>
+              isTyp c .colon && fieldDerives fuel l a &&
+              (match rest0 with
+               | lb :: rest =>
+                 (isTyp lb .lsquare || isTyp lb .lcurly) &&
+                 (match rest.getLast? with
+                  | some rb =>
+                    (isTyp rb .rsquare || isTyp rb .rcurly) &&
+                    incl == (isTyp lb .lsquare && isTyp rb .rsquare) &&
+                    (splitsAt rest.dropLast).any (fun (a, x, cc) =>
+                      isTyp x .tto && derivesNode df fuel mn a && derivesNode df fuel mx cc)
+                  | none => false)
+               | [] => false))
+          | _ => false)
        | .fuzzy =>
          r.isNil &&
          (splitsAt toks).any (fun (a, x, c) =>
